@@ -37,13 +37,14 @@ Record pvar := mkV {
   v_dist : option nid;             (* Var.dist_node (None = NoDist) *)
   v_obs : bool;
   v_par : bool;
-  v_groups : list gid
+  v_groups : list gid;
+  v_auto : bool                    (* Var.auto_transform *)
 }.
 
 Record world := mkW { w_nodes : list pnode; w_vars : list pvar; w_gnames : list string }.
 
 Inductive berr := BadRef | Reserved | Frozen | DupNode | DupVar | DupGroup | InModel | Cycle
-                | BadOrder | OutOfFuel.
+                | BadOrder | OutOfFuel | BadTransform.
 Inductive result (A : Type) := Ok (a : A) | Err (e : berr).
 Arguments Ok {A} a.
 Arguments Err {A} e.
@@ -115,7 +116,7 @@ Definition set_inmodel (b : bool) (n : pnode) : pnode :=
 Definition set_outs (o : list nid) (n : pnode) : pnode :=
   mkN (n_name n) (n_pos n) (n_kw n) (n_at n) (n_var n) (n_seed n) (n_isdist n) (n_inmodel n) o (n_groups n).
 Definition set_vname (s : string) (v : pvar) : pvar :=
-  mkV s (v_value v) (v_varvalue v) (v_dist v) (v_obs v) (v_par v) (v_groups v).
+  mkV s (v_value v) (v_varvalue v) (v_dist v) (v_obs v) (v_par v) (v_groups v) (v_auto v).
 
 (* ------------------------------------------------------------------------------------------ *)
 (* GraphBuilder._all_nodes_and_vars : worklist, pop from the END of the Python list.
@@ -328,6 +329,67 @@ Definition is_topo (w : world) (ns order : list nid) : bool :=
 
 Record model := mkM { m_nodes : list nid; m_vars : list vid }.
 
+(* ------------------------------------------------------------------------------------------ *)
+(* Var.transform(bijector=None), called by build_model for the variables with auto_transform.
+   The flag is cleared on the ORIGINAL variable first ("avoid infinite recursion").  New objects:
+   two InputGroup nodes (the inputs of the old distribution; the empty bijector arguments), the
+   transformed Dist reading them, the new variable <name>_transformed (Value node, VarValue proxy, that Dist)
+   and the Calc that becomes the value node of the original variable (inputs: proxy of the new variable and
+   the two groups).  The old value node and the old distribution leave the variable. *)
+Definition set_var_none (n : pnode) : pnode :=
+  mkN (n_name n) (n_pos n) (n_kw n) (n_at n) None (n_seed n) (n_isdist n) (n_inmodel n) (n_outs n) (n_groups n).
+Definition set_pos (pos : list nid) (n : pnode) : pnode :=
+  mkN (n_name n) pos (n_kw n) (n_at n) (n_var n) (n_seed n) (n_isdist n) (n_inmodel n) (n_outs n) (n_groups n).
+Definition derived (vname suffix : string) : string :=
+  if String.eqb vname "" then "" else (vname ++ suffix)%string.
+
+(* Var.strong: the value node is a Value node; in the snapshot: a non-Dist node without inputs *)
+Definition strong_node (n : pnode) : bool :=
+  match n_pos n, n_kw n with [], [] => negb (n_isdist n) | _, _ => false end.
+
+Definition transform_default (w : world) (v : vid) : world * result unit :=
+  match getv w v with
+  | None => (w, Err BadRef)
+  | Some pv =>
+    match getn w (v_value pv), v_dist pv with
+    | Some vn, Some d =>
+      match getn w d with
+      | None => (w, Err BadRef)
+      | Some dn =>
+        if negb (strong_node vn) then (w, Err BadTransform)            (* "is weak" *)
+        else if n_inmodel vn then (w, Err InModel)                      (* value_node setter is guarded *)
+        else
+          let N := List.length (w_nodes w) in
+          let V := List.length (w_vars w) in
+          let tname := (v_name pv ++ "_transformed")%string in
+          let gin := mkN "" (n_pos dn) (n_kw dn) None None false false false [] [] in
+          let gbj := mkN "" [] [] None None false false false [] [] in
+          let tdist := mkN (tname ++ "_log_prob") [N; N + 1] [] (Some (N + 4)) (Some V) (n_seed dn) true false [] [] in
+          let tval := mkN (tname ++ "_value") [] [] None (Some V) false false false [] [] in
+          let tproxy := mkN (tname ++ "_var_value") [N + 3] [] None (Some V) false false false [] [] in
+          let calc := mkN (derived (v_name pv) "_value") [N + 4; N; N + 1] [] None (Some v) false false false [] [] in
+          let w1 := addn (addn (addn (addn (addn (addn w gin) gbj) tdist) tval) tproxy) calc in
+          let w2 := setn (setn (setn w1 (v_value pv) set_var_none) d set_var_none) (v_varvalue pv) (set_pos [N + 5]) in
+          let tv := mkV tname (N + 3) (N + 4) (Some (N + 2)) false (v_par pv) [] false in
+          let w3 := mkW (w_nodes w2) (w_vars w2 ++ [tv]) (w_gnames w2) in
+          (setv w3 v (fun p => mkV (v_name p) (N + 5) (v_varvalue p) None (v_obs p) false (v_groups p) false), Ok tt)
+      end
+    | _, None => (w, Err BadTransform)                                  (* "has no distribution" *)
+    | None, _ => (w, Err BadRef)
+    end
+  end.
+
+Definition is_auto (w : world) (v : vid) : bool :=
+  match getv w v with Some pv => v_auto pv | None => false end.
+
+Definition transform_step (acc : world * result unit) (v : vid) : world * result unit :=
+  match acc with
+  | (w, Ok _) => if is_auto w v then transform_default w v else acc
+  | _ => acc
+  end.
+Definition auto_transform_all (w : world) (vs : list vid) : world * result unit :=
+  fold_left transform_step vs (w, Ok tt).
+
 Section Variants.
   Variable strip : bool.         (* repaired code (005a821): build removes stale _model_*_seed inputs *)
   Variable check_first : bool.   (* repaired code (5ebbe54): one-model check before touching any node *)
@@ -362,14 +424,18 @@ Section Variants.
                        | Some pv => if p pv then olist (v_dist pv) else []
                        | None => [] end) vs.
 
-  (* GraphBuilder.build_model (no auto-transform, no user-defined log-prob nodes) *)
+  (* GraphBuilder.build_model (no user-defined log-prob nodes) *)
   Definition build (copy : bool) (w : world) (rn : list nid) (rv : list vid) : world * result model :=
     bind_closure w rn rv (fun ns0 _ =>
     let w1 := if strip then strip_seeds w ns0 else w in
     bind_closure w1 rn rv (fun ns1 vs1 =>
     if existsb (fun i => reserved_name (name_of w1 i)) ns1 then (w1, Err Reserved) else
-    match set_missing_names proxy_fix w1 ns1 vs1 with
-    | None => (w1, Err OutOfFuel)
+    match auto_transform_all w1 vs1 with
+    | (wt, Err e) => (wt, Err e)
+    | (wt, Ok _) =>
+    bind_closure wt rn rv (fun nst vst =>
+    match set_missing_names proxy_fix wt nst vst with
+    | None => (wt, Err OutOfFuel)
     | Some w2 =>
       (* _model_log_lik *)
       bind_closure w2 rn rv (fun _ vs2 =>
@@ -390,6 +456,7 @@ Section Variants.
       | (w6, Err e) => (w6, Err e)
       | (w6, Ok _) => bind_closure w6 rn5 rv (fun ns6 vs6 => model_init copy w6 ns6 vs6)
       end))))
+    end)
     end)).
 
 End Variants.
